@@ -73,6 +73,8 @@ def cs(x: str) -> str:
     if not x:
         return "(@nil Ascii.ascii)"
     assert all(ord(c) < 256 for c in x), x
+    if all(32 <= ord(c) < 127 and c != '"' for c in x):
+        return f'(lit "{x}")'            # much faster for coqc to parse than a list of numbers
     return "(bs [" + ";".join(str(ord(c)) for c in x) + "]%N)"
 
 
@@ -369,6 +371,10 @@ class Gen:
             return r.choice(["batch-job", "redun-job", "a", "", "-", "my_jobs-2", "x-array", "array", "p--q"])
         return "".join(r.choice("ab-_09Z") for _ in range(r.randint(0, 9)))
 
+    def evalhash(self):
+        """what a redun evaluation hash looks like: 40 lowercase hex characters"""
+        return "".join(self.rng.choice("0123456789abcdef") for _ in range(40))
+
     def hexhash(self):
         r = self.rng
         k = r.random()
@@ -428,19 +434,36 @@ class Check(PropertyCheck):
     # ------------------------------------------------------------------ correspondence
     def correspond(self):
         real = Real()
+        import time
         try:
-            self._pure_cases()
-            self._protocol_cases(real)
-            self._reunite_cases(real)
+            for name, fn in (("pure", self._pure_cases), ("protocol", lambda: self._protocol_cases(real)),
+                             ("reunite", lambda: self._reunite_cases(real))):
+                t0 = time.time()
+                fn()
+                self.stat("timing_s", "correspond_generate_" + name, round(time.time() - t0, 1))
         finally:
             real.close()
+        t0 = time.time()
+        self._flush_terms()
+        self.stat("timing_s", "correspond_coq", round(time.time() - t0, 1))
 
-    def _run_terms(self, tag, terms, descr, what, chunk=100):
-        ok, failing, diags = run_bool_cases(tag, ["Base.Decimal", "Base.Lit", "Model.Scratch", "Model.ScratchCases"],
-                                            "From Coq Require Import ZArith NArith.\n", terms, chunk=chunk)
-        self.ob("correspondence", f"{what} ({len(terms)} cases)", ok and not failing,
-                "\n".join(diags) + "".join(f"\nmismatch: {descr[i]}" for i in failing[:8]))
-        self.mismatches = getattr(self, "mismatches", []) + [descr[i] for i in failing]
+    def _run_terms(self, tag, terms, descr, what, chunk=250):
+        """queue a group of Coq cases; they are compiled together (in parallel) by _flush_terms"""
+        self._pending = getattr(self, "_pending", []) + [(tag, terms, descr, what, chunk)]
+
+    def _flush_terms(self):
+        pending, self._pending = getattr(self, "_pending", []), []
+
+        def go(p):
+            tag, terms, descr, what, chunk = p
+            return run_bool_cases(tag, ["Base.Decimal", "Base.Lit", "Model.Scratch", "Model.ScratchCases"],
+                                  "From Coq Require Import ZArith NArith String.\n", terms, chunk=chunk)
+        with ThreadPoolExecutor(max_workers=3) as ex:
+            results = list(ex.map(go, pending))
+        for (tag, terms, descr, what, chunk), (ok, failing, diags) in zip(pending, results):
+            self.ob("correspondence", f"{what} ({len(terms)} cases)", ok and not failing,
+                    "\n".join(diags) + "".join(f"\nmismatch: {descr[i]}" for i in failing[:8]))
+            self.mismatches = getattr(self, "mismatches", []) + [descr[i] for i in failing]
 
     def _pure_cases(self):
         from redun.executors.aws_batch import get_batch_job_name, get_hash_from_job_name, is_array_job_name
@@ -448,7 +471,7 @@ class Check(PropertyCheck):
         from redun.job_array import get_job_array_index
         r = self.rng
         g = Gen(r)
-        n = 250 if self.tier == "quick" else 6000
+        n = 200 if self.tier == "quick" else 6000
         terms, descr = [], []
 
         def add(t, d):
@@ -560,7 +583,7 @@ class Check(PropertyCheck):
         from redun.executors.scratch import parse_job_error, parse_job_result
         r = self.rng
         g = Gen(r)
-        n = 160 if self.tier == "quick" else 2500
+        n = 150 if self.tier == "quick" else 2500
         terms, descr = [], []
         for k in range(n):
             it = Intern()
@@ -707,7 +730,7 @@ class Check(PropertyCheck):
             shutil.rmtree(real.dir / prefix, ignore_errors=True)
         self._run_terms("C32o", terms, descr,
                         "model == get_oneshot_command / write_array_job_scratch_files / oneshot_command / "
-                        "parse_job_result / parse_job_error on generated scratch directories", chunk=30)
+                        "parse_job_result / parse_job_error on generated scratch directories", chunk=60)
 
     @staticmethod
     def _parse_command(command):
@@ -777,7 +800,7 @@ class Check(PropertyCheck):
             jid = f"id{next(nid)}"
             st = r.choice(statuses[:5] * 3 + statuses[5:])
             if kind < 0.4:                                        # single job
-                h = g.hexhash()
+                h = g.hexhash() if not faithful else g.evalhash()
                 if r.random() < 0.15 and created:
                     h = r.choice(list(created.values()))          # same evaluation hash submitted twice
                 from redun.executors.aws_batch import get_batch_job_name
@@ -788,7 +811,7 @@ class Check(PropertyCheck):
                 from redun.executors.aws_batch import get_batch_job_name
                 aid = uuid.UUID(int=r.getrandbits(128)).hex
                 n = r.randint(1, 5)
-                hs = [g.hexhash() for _ in range(n)]
+                hs = [g.hexhash() if not faithful else g.evalhash() for _ in range(n)]
                 jobs = [real.job(h, (), {}) for h in hs]
                 wrote = r.random() < 0.85
                 if wrote:
@@ -823,7 +846,7 @@ class Check(PropertyCheck):
     def _reunite_cases(self, real):
         r = self.rng
         g = Gen(r)
-        n = 120 if self.tier == "quick" else 2000
+        n = 110 if self.tier == "quick" else 2000
         terms, descr = [], []
         for k in range(n):
             it = Intern()
@@ -846,7 +869,7 @@ class Check(PropertyCheck):
             self.sample({"op": "gather_inflight_jobs", "listing": [(j["jobName"], j["status"]) for j in listing][:4],
                          "result": repr(got)[:200]}, 6)
             shutil.rmtree(real.dir / prefix, ignore_errors=True)
-        self._run_terms("C32r", terms, descr, "model == AWSBatchExecutor.gather_inflight_jobs on generated batch listings", chunk=30)
+        self._run_terms("C32r", terms, descr, "model == AWSBatchExecutor.gather_inflight_jobs on generated batch listings", chunk=60)
 
     # ------------------------------------------------------------------ oracle
     def oracle(self):
@@ -858,11 +881,14 @@ class Check(PropertyCheck):
                 for line in corpus.read_text().splitlines():
                     if line.strip():
                         self._replay_one(real, json.loads(line), record=True)
-            self._oracle_jobnames()
-            self._oracle_single(real)
-            self._oracle_arrays(real)
-            self._oracle_subprocess(real)
-            self._oracle_reunite(real)
+            import time
+            for name, fn in (("jobnames", self._oracle_jobnames), ("single", lambda: self._oracle_single(real)),
+                             ("arrays", lambda: self._oracle_arrays(real)),
+                             ("subprocess", lambda: self._oracle_subprocess(real)),
+                             ("reunite", lambda: self._oracle_reunite(real))):
+                t0 = time.time()
+                fn()
+                self.stat("timing_s", "oracle_" + name, round(time.time() - t0, 1))
             self.ob("oracle", "implementation oracle: remote == local (single, array elements in any order, CLI "
                     "subprocess), own files only, job-name round trip, reunite only same hash",
                     len(self.findings) == n0, "; ".join(f.what for f in self.findings[n0:n0 + 5]))
@@ -879,7 +905,7 @@ class Check(PropertyCheck):
             n += 1
             name = get_batch_job_name(p, h, a)
             got = get_hash_from_job_name(name)
-            if got != h or is_array_job_name(name) != a:
+            if (got != h or is_array_job_name(name) != a) and len(self.findings) < 40:
                 self.findings.append(Finding(f"jobname:{p!r}:{h!r}:{a}"[:200],
                                              f"job name {name!r} does not give back hash {h!r} / array={a} (got {got!r})",
                                              {"kind": "jobname", "prefix": p, "hash": h, "array": a}))
@@ -902,7 +928,7 @@ class Check(PropertyCheck):
 
     def _oracle_single(self, real):
         g = Gen(self.rng)
-        n = 150 if self.tier == "quick" else 4000
+        n = 300 if self.tier == "quick" else 4000
         for k in range(n):
             a, kw = g.argset()
             job = real.job(g.hash_of(a, kw, long=True), a, kw)
@@ -964,10 +990,10 @@ class Check(PropertyCheck):
 
     def _oracle_arrays(self, real):
         g = Gen(self.rng)
-        n = 40 if self.tier == "quick" else 800
+        n = 50 if self.tier == "quick" else 800
         sizes = [1, 2, 3, 4, 5, 7, 8, 12, 16, 24]
         for k in range(n):
-            size = sizes[k % len(sizes)] if k else (130 if self.tier == "quick" else 1200)
+            size = sizes[k % len(sizes)] if k < n - 1 else (130 if self.tier == "quick" else 1200)   # small first
             argsets, seen = [], set()
             while len(argsets) < size:
                 a, kw = g.argset()
@@ -1004,16 +1030,7 @@ class Check(PropertyCheck):
             argsets[0] = (("boom", k), {})
             argsets = [(a + (i,), kw) if a else (a, kw) for i, (a, kw) in enumerate(argsets)]
             work.append((f"p{k}", argsets, [2, 0, 1], ENV_VARS[k % 3], k % 2 == 1))
-        with ThreadPoolExecutor(max_workers=8) as ex:
-            results = list(ex.map(lambda w: self._array_run(real, w[0], w[1], w[2], w[3], w[4], via=real.oneshot_subprocess), work))
-        for w, probs in zip(work, results):
-            self.count(("subprocess", repr(w[1])), 3)
-            self.stat("oracle", "array elements through CLI subprocess", 3)
-            for i, why in probs[:1]:
-                self.findings.append(Finding(f"cli-array:elem{i}:{w[3]}", "through the redun CLI: " + why,
-                                             {"kind": "array", "argsets": repr(w[1]), "order": w[2], "var": w[3],
-                                              "no_cache": w[4], "subprocess": True}))
-        # single jobs through the CLI
+        # single jobs through the CLI (prepared here, run in the same pool as the arrays)
         singles = []
         for k in range(n):
             a, kw = g.argset()
@@ -1024,8 +1041,18 @@ class Check(PropertyCheck):
             command = real.command_single(prefix, job, False)
             rc = real.oneshot_subprocess(command, {})
             return real.collect(prefix, job, rc == 0)
-        with ThreadPoolExecutor(max_workers=8) as ex:
-            rems = list(ex.map(run_single, singles))
+        with ThreadPoolExecutor(max_workers=12) as ex:
+            fut_arr = [ex.submit(self._array_run, real, w[0], w[1], w[2], w[3], w[4], True, real.oneshot_subprocess) for w in work]
+            fut_single = [ex.submit(run_single, x) for x in singles]
+            results = [f_.result() for f_ in fut_arr]
+            rems = [f_.result() for f_ in fut_single]
+        for w, probs in zip(work, results):
+            self.count(("subprocess", repr(w[1])), 3)
+            self.stat("oracle", "array elements through CLI subprocess", 3)
+            for i, why in probs[:1]:
+                self.findings.append(Finding(f"cli-array:elem{i}:{w[3]}", "through the redun CLI: " + why,
+                                             {"kind": "array", "argsets": repr(w[1]), "order": w[2], "var": w[3],
+                                              "no_cache": w[4], "subprocess": True}))
         for (prefix, job), rem in zip(singles, rems):
             loc = real.local(*job.args)
             self.count(("subprocess-single", repr(job.args)))
@@ -1037,7 +1064,7 @@ class Check(PropertyCheck):
 
     def _oracle_reunite(self, real):
         g = Gen(self.rng)
-        n = 150 if self.tier == "quick" else 3000
+        n = 300 if self.tier == "quick" else 3000
         hexd = set("0123456789abcdef")
         for k in range(n):
             prefix = f"w{k}"
@@ -1049,7 +1076,8 @@ class Check(PropertyCheck):
                                              {"kind": "reunite", "name_prefix": name_prefix, "listing": listing}))
             else:
                 for h, jid in got[1].items():
-                    if h and set(h) <= hexd and created.get(jid) != h:
+                    # only keys that can be a job's evaluation hash (40 hex) can ever be looked up
+                    if len(h) == 40 and set(h) <= hexd and created.get(jid) != h:
                         self.findings.append(Finding(f"reunite:{jid}", f"evaluation hash {h} would be reunited with remote job "
                                                      f"{jid}, which was created for {created.get(jid)!r}",
                                                      {"kind": "reunite", "name_prefix": name_prefix, "listing": listing,
